@@ -1139,6 +1139,17 @@ fn c05_parser_stream(o: &Opts, cx: &mut Ctx, rng: &mut Rng) {
             }
         ));
     }
+    // empty truth / budget brackets written out, in every position (no formatter prints them)
+    for fm in formats() {
+        let v = vocab(fm.l);
+        for (s, _, how) in empty_bracket_texts(&fm, &v) {
+            let r = cx.parse_case(&fm, &s);
+            cx.rep.hist.add(format!("{}:empty-brackets:{}", fm.name, pr_tag(&r)));
+            if r.is_err() {
+                cx.fail("empty-brackets", "lexical parser panicked", format!("[{}] {:?} ({})", fm.name, s, how), "Ok or Err".into(), "PANIC".into(), None);
+            }
+        }
+    }
     for fm in formats() {
         let v = vocab(fm.l);
         let kw = keywords(fm.l, &v);
@@ -1907,6 +1918,141 @@ fn c05_deep_failing_stream(o: &Opts, cx: &mut Ctx, rng: &mut Rng) {
                         }
                         break; // new helper for the rest
                     }
+                }
+            }
+        }
+    }
+}
+
+// -------------------------------------------------------------------------------------------
+// EMPTY bracket pairs (truth, budget) written out, in every position and format.  Neither formatter prints an empty
+// truth (and the lexical one prints no empty budget), so no format -> parse stream meets these texts; the parsers accept
+// them (`A. %%`, `$$ A. %%`, `\langle{}\rangle{}`, `真值`, `预算`).
+// Returns (text, kind the items present demand when the text is a canonical item sequence, description).
+// -------------------------------------------------------------------------------------------
+pub fn empty_bracket_texts(fm: &Fm, v: &Vocab) -> Vec<(String, Option<usize>, String)> {
+    let l = fm.l;
+    let sp = l.space.format_items.clone();
+    let (a, b) = if fm.idx == 2 { ("甲", "乙") } else { ("A", "B") };
+    let terms: Vec<LTerm> = vec![
+        mk_atom("", a),
+        mk_atom(v.prefixes[0].clone(), a),
+        mk_statement(v.copulas[0].clone(), mk_atom("", a), mk_atom("", b)),
+        mk_compound(v.connecters[0].clone(), vec![mk_atom("", a), mk_atom("", b)]),
+        mk_set(v.set_brackets[0].0.clone(), vec![mk_atom("", a)], v.set_brackets[0].1.clone()),
+    ];
+    let tb = l.sentence.truth_brackets.clone();
+    let bb = l.task.budget_brackets.clone();
+    let empty_truth = format!("{}{}", tb.0, tb.1);
+    let empty_budget = format!("{}{}", bb.0, bb.1);
+    let truths: Vec<(Option<String>, &str)> = vec![(None, "no truth"), (Some(empty_truth.clone()), "EMPTY truth"), (Some(format!("{}1{}0.9{}", tb.0, l.sentence.truth_separator, tb.1)), "truth")];
+    let budgets: Vec<(Option<String>, &str)> = vec![(None, "no budget"), (Some(empty_budget.clone()), "EMPTY budget"), (Some(format!("{}0.5{}", bb.0, bb.1)), "budget")];
+    let mut stamps: Vec<Option<String>> = vec![None];
+    for (sa, sb) in v.stamp_brackets.iter() {
+        stamps.push(Some(if sa.is_empty() { format!("{}{}", sa, sb) } else { format!("{}1{}", sa, sb) }));
+    }
+    let mut puncts: Vec<Option<String>> = vec![None];
+    puncts.extend(v.punctuations.iter().cloned().map(Some));
+    let mut out: Vec<(String, Option<usize>, String)> = vec![];
+    for (ti, t) in terms.iter().enumerate() {
+        let Some(ts) = guard(|| l.format_term(t)) else { continue };
+        for (bi, (bud, bname)) in budgets.iter().enumerate() {
+            for (pi, p) in puncts.iter().enumerate() {
+                for (si, st) in stamps.iter().enumerate() {
+                    for (ui, (tr, tname)) in truths.iter().enumerate() {
+                        // every combination with an empty pair for the first term; a rotating part for the others
+                        let has_empty = bi == 1 || ui == 1;
+                        if !has_empty || (ti != 0 && (ti + bi + pi + si + ui) % 3 != 0) {
+                            continue;
+                        }
+                        let mut items: Vec<String> = vec![];
+                        items.extend(bud.clone());
+                        items.push(format!("{}{}", ts, p.clone().unwrap_or_default()));
+                        items.extend(st.clone());
+                        items.extend(tr.clone());
+                        let want = match (bud, p) {
+                            (Some(_), Some(_)) => 2,
+                            (None, Some(_)) => 1,
+                            _ => 0,
+                        };
+                        let descr = format!("{}, term, {}, {}, {}", bname, if p.is_some() { "punctuation" } else { "no punctuation" }, if st.is_some() { "stamp" } else { "no stamp" }, tname);
+                        out.push((items.join(&sp), Some(want), descr.clone()));
+                        if (bi + pi + si + ui) % 2 == 0 {
+                            out.push((items.concat(), Some(want), format!("{} (no blanks)", descr)));
+                        }
+                    }
+                }
+            }
+        }
+        // empty pairs where they do not belong (no classification demanded: model vs implementation, and both parsers alike)
+        let p0 = v.punctuations[0].clone();
+        for e in [&empty_truth, &empty_budget] {
+            out.push((format!("{}{}{}{}", e, sp, ts, p0), None, "empty pair before the term".into()));
+            out.push((format!("{}{}{}{}", ts, sp, e, p0), None, "empty pair between term and punctuation".into()));
+            out.push((format!("{}{}{}{}{}", ts, p0, sp, e, e), None, "empty pair twice at the end".into()));
+            out.push((format!("{}{}{}", ts, sp, e), None, "term and empty pair".into()));
+            out.push((e.to_string(), None, "the empty pair alone".into()));
+            out.push((format!("{}{}", e, p0), None, "the empty pair and a punctuation".into()));
+        }
+        out.push((format!("{}{}{}{}{}{}", empty_budget, sp, empty_budget, sp, ts, p0), None, "empty budget twice".into()));
+        out.push((format!("{}{}{}{}{}{}", ts, p0, sp, empty_truth, sp, empty_budget), None, "empty budget after the empty truth".into()));
+    }
+    out
+}
+
+/// C15: the classification by the items present, in both parsers, on texts with empty bracket pairs written out; the
+/// lexical results are compared with the lexical model (cases appended to `lcases`)
+pub fn c15_empty_brackets(rep: &mut Report, lcases: &mut Vec<String>, ldescr: &mut Vec<String>) {
+    let kinds = ["term", "sentence", "task"];
+    for fm in formats() {
+        let v = vocab(fm.l);
+        for (s, want, descr) in empty_bracket_texts(&fm, &v) {
+            let lr = real_lex_parse(fm.l, &s);
+            let er = crate::enumprops::real_parse(fm.e, &s);
+            rep.evaluations += 2;
+            lcases.push(format!("LParseC {} {} {}", fm.idx, cstr(&s), clres(&lr, clnarsese)));
+            ldescr.push(format!("lexical parse[{}] {:?} ({})", fm.name, s, descr));
+            let lk = match &lr {
+                Ok(Some(x)) => Some(match x {
+                    LNarsese::Term(_) => 0,
+                    LNarsese::Sentence(_) => 1,
+                    LNarsese::Task(_) => 2,
+                }),
+                _ => None,
+            };
+            let ek = match &er {
+                Ok(Some(x)) => Some(crate::enumgen::kind_of(x)),
+                _ => None,
+            };
+            rep.hist.add(format!("{}:empty-brackets:{}:lexical={}:enum={}", fm.name, if want.is_some() { "canonical" } else { "misplaced" }, lk.map(|k| kinds[k]).unwrap_or(pr_tag(&lr)), ek.map(|k| kinds[k]).unwrap_or(pr_tag(&er))));
+            let mut fail = |what: &str, expected: String, got: String| {
+                rep.fail(Failure { stream: "empty-brackets".into(), what: what.into(), input: format!("[{}] {:?} ({})", fm.name, s, descr), expected, got, known: None });
+            };
+            if lr.is_err() || er.is_err() {
+                fail("a parser panicked", "Ok or Err".into(), "PANIC".into());
+                continue;
+            }
+            if let Some(w) = want {
+                // a canonical item sequence: the kind is decided by the items present, in both parsers
+                if let Some(k) = lk {
+                    if k != w {
+                        fail("lexical parser: wrong kind for the items present (an empty truth / budget is still a truth / budget)", kinds[w].into(), kinds[k].into());
+                    }
+                }
+                if let Some(k) = ek {
+                    if k != w {
+                        fail("enum parser: wrong kind for the items present (an empty truth / budget is still a truth / budget)", kinds[w].into(), kinds[k].into());
+                    }
+                }
+            }
+            // "identically in both parsers" is demanded of canonical item sequences only (the property quantifies over what the
+            // formatters print: budget, term + punctuation, stamp, truth in this order).  On the MISPLACED texts the two parsers
+            // differ by design on the unchanged library -- the enum parser collects items in any order (`A@ %% $$` is a task,
+            // `A $$@` is a task), the lexical parser takes the budget from the front and truth / stamp / punctuation from the
+            // back (term resp. sentence) -- so these are correspondence cases (lexical model) and histogram entries only.
+            if let (Some(k1), Some(k2), Some(_)) = (lk, ek, want) {
+                if k1 != k2 {
+                    fail("enum and lexical parser classify the same text differently", format!("enum: {}", kinds[k2]), format!("lexical: {}", kinds[k1]));
                 }
             }
         }
